@@ -132,14 +132,18 @@ def destroyEvt (s : St) (e : Evt) : St :=
 
 inductive TellKey | direct | bcast | sub (i : SrcId)
 
+/-- the subscription a copy refers to (publish only) -/
+def TellKey.subOf : TellKey → Option SrcId
+  | .sub i => some i
+  | _ => none
+
 /-- `tell_if`: deliver a copy to `r` when it is RUNNING or PAUSED and eligible -/
 def tellIf (s : St) (msg : Msg) (key : TellKey) (r : ModId) : St :=
   match s.mods[r]? with
   | none => s
   | some md =>
     if md.state == .running || md.state == .paused then
-      let sub := match key with | .sub i => some i | _ => none
-      let copy := { msg with sub := sub }
+      let copy := { msg with sub := key.subOf }
       let s1 := holderRef s msg.holder
       match md.pipe with
       | some q =>
@@ -937,14 +941,17 @@ def apiDeregSrc (m : ModId) (paramOk : Bool) (kind : SrcKind) (key : Nat) : Prog
         | some i => do modify fun s => removeSrc s m i; pure 0
         | none => pure ENOENT
 
+/-- registered, non-internal sources and subscriptions of a module -/
+def userCount (s : St) (md : Mod) : Nat :=
+  (md.subs ++ md.srcs).countP fun i => match s.srcs[i]? with | some x => x.registered && x.role == .user | none => false
+
 def apiSrcLen (m : ModId) : Prog Int :=
   guarded m noDeny none false do
     let s ← getSt
     match s.mods[m]? with
     | none => pure EINVAL
     | some md =>
-      let n := (md.subs ++ md.srcs).countP fun i => match s.srcs[i]? with | some x => x.registered && x.role == .user | none => false
-      pure (n : Int)
+      pure (userCount s md : Int)
 
 /-- `m_mod_register` -/
 def apiRegister (name : String) (slot : Nat) (flags : ModFlags) (hooks : Hooks) : Prog Int := do
